@@ -6,7 +6,8 @@ Open Scope list_scope.
 Open Scope Z_scope.
 
 Theorem tie_sequence_init : forall ty v blk,
-  src_sequence_init ty v blk = match mk_sequence ty v blk with Some _ => RetNone | None => Raise end.
+  src_sequence_init ty v blk = match mk_sequence ty v blk with
+  | Some s => Ok (Some (seq_type s), Some (seq_value s), Some (seq_is_block s)) | None => Raise end.
 Proof. exact src_sequence_init_eq. Qed.
 Print Assumptions tie_sequence_init.
 
